@@ -186,7 +186,7 @@ def single_record_cpp(target, rec, seed):
 
 
 # ------------------------------------------------------------------------------------------------ record generators
-def swizzle_masks(n, rnd, nrandom, per128):
+def swizzle_masks(n, rnd, nrandom, per128, full=True):
     fam = []
 
     def add(name, m):
@@ -195,7 +195,7 @@ def swizzle_masks(n, rnd, nrandom, per128):
     add("reverse", list(range(n - 1, -1, -1)))
     add("dup_even", [(i // 2) * 2 for i in range(n)])
     add("dup_odd", [(i // 2) * 2 + 1 for i in range(n)])
-    for k in range(n):
+    for k in (range(n) if full else sorted({1 % n, n // 2, n - 1, rnd.randrange(n)})):
         add("rotate", [(i + k) for i in range(n)])
         add("broadcast", [k] * n)
     if per128 < n:
@@ -215,7 +215,7 @@ def swizzle_masks(n, rnd, nrandom, per128):
     return fam
 
 
-def shuffle_masks(n, rnd, nrandom, per128):
+def shuffle_masks(n, rnd, nrandom, per128, full=True):
     fam = []
 
     def add(name, m):
@@ -230,7 +230,7 @@ def shuffle_masks(n, rnd, nrandom, per128):
     add("select_halves", [i + n * (1 if i >= n // 2 else 0) for i in range(n)])
     base = list(fam)
     for name, m in base:  # one-off neighbours of every detector pattern
-        for pos in sorted({0, 1 % n, n // 2, n - 1}):
+        for pos in sorted({0, n // 2, n - 1}) if full else [rnd.randrange(n)]:
             mm = list(m)
             mm[pos] = (mm[pos] + 1) % (2 * n)
             add(name + "_oneoff", mm)
@@ -246,10 +246,13 @@ def shuffle_masks(n, rnd, nrandom, per128):
                 src = (i % 2) if per128 == 2 else ((i % per128) >= per128 // 2)
                 m.append(lane0 + rnd.randrange(per128) + (n if src else 0))
             add("in_lane_xy", m)
-            mm = list(m)
-            p = rnd.randrange(n)
-            mm[p] = (n if mm[p] >= n else 0) + rnd.randrange(n)
-            add("in_lane_xy_oneoff", mm)
+            # neighbours: at every position, the same source but an index taken from another 128-bit lane
+            for p in range(n):
+                mm = list(m)
+                srcoff = n if mm[p] >= n else 0
+                other = ((mm[p] - srcoff) + per128 * (1 + rnd.randrange(max(1, n // per128 - 1)))) % n
+                mm[p] = srcoff + other
+                add("in_lane_xy_oneoff", mm)
     for _ in range(nrandom):
         add("random", [rnd.randrange(2 * n) for _ in range(n)])
         add("random_select", [i + n * rnd.randrange(2) for i in range(n)])
@@ -258,21 +261,25 @@ def shuffle_masks(n, rnd, nrandom, per128):
 
 def c05_records(target, tier, rnd):
     recs = []
-    nrand = 10 if tier == "quick" else 150
+    nrand = 3 if tier == "quick" else 150
     for ty in CT:
         n = lanes(target, ty)
         per128 = max(1, 16 // BYTES[ty])
         if cap("swizzle_const", target, ty) and cap("swizzle_const_mix", target, ty):
             if n <= 4:
                 tot = n ** n
-                for k in range(tot):
+                ks = range(tot) if (tier != "quick" or tot <= 16) else sorted(rnd.sample(range(tot), 24))
+                for k in ks:
                     m, q = [], k
                     for _ in range(n):
                         m.append(q % n)
                         q //= n
                     recs.append(Record("swizzle", ty, m, "all", nontrivial=m != list(range(n))))
+                if tier == "quick" and tot > 16:
+                    for name, m in swizzle_masks(n, rnd, 0, per128, full=False):
+                        recs.append(Record("swizzle", ty, m, name, nontrivial=name not in ("identity", "reverse", "dup_even", "dup_odd")))
             else:
-                for name, m in swizzle_masks(n, rnd, nrand, per128):
+                for name, m in swizzle_masks(n, rnd, nrand, per128, full=(tier != "quick")):
                     recs.append(Record("swizzle", ty, m, name, nontrivial=name not in ("identity", "reverse", "dup_even", "dup_odd")))
         if cap("shuffle", target, ty):
             if n == 2:
@@ -282,21 +289,25 @@ def c05_records(target, tier, rnd):
                 for k in range(8 ** 4):
                     recs.append(Record("shuffle", ty, [(k >> (3 * i)) & 7 for i in range(4)], "all"))
             else:
-                for name, m in shuffle_masks(n, rnd, nrand, per128):
+                for name, m in shuffle_masks(n, rnd, nrand, per128, full=(tier != "quick")):
                     both = any(x < n for x in m) and any(x >= n for x in m)
+                    if not both and not (cap("swizzle_const", target, ty) and cap("swizzle_const_mix", target, ty)):
+                        continue  # a one-source mask is forwarded to the constant swizzle, which this (target, type) does not accept
                     recs.append(Record("shuffle", ty, m, name, nontrivial=both))
     return recs
 
 
 def c19_records(target, tier, rnd):
     recs = []
-    nrand = 3 if tier == "quick" else 40
+    nrand = 2 if tier == "quick" else 40
     for ty in INT_TYPES:
         n = lanes(target, ty)
         b = BYTES[ty] * 8
         signed = ty.startswith("i")
         lo, hi = (-(1 << (b - 1)), (1 << (b - 1)) - 1) if signed else (0, (1 << b) - 1)
-        pos = sorted({0, 1 % n, n // 2, n - 1}) if tier == "quick" else list(range(n))
+        if signed and b >= 32:
+            lo += 1  # batch_constant's own operator-() makes a pack holding MIN ill-formed (overflow in a constant expression): rejected by the compiler, not a lane-semantics matter
+        pos = sorted({0, n // 2, n - 1}) if tier == "quick" else list(range(n))
         packs = []
         for k in pos:
             packs.append(("one_hot", [hi if i == k else 0 for i in range(n)]))
@@ -323,19 +334,20 @@ def c19_records(target, tier, rnd):
             recs.append(Record("bool_values", ty, [int(x) for x in p], "bool"))
             if cap("select_const", target, ty):
                 recs.append(Record("select_const", ty, [int(x) for x in p], "select"))
-        for _ in range(max(2, nrand)):
+        for _ in range(max(1, nrand // 2)):
             p, q = rnd.choice(bpacks), rnd.choice(bpacks)
             for op in ("&&", "||", "&", "|", "^", "!", "~"):
                 recs.append(Record("bool_op", ty, [int(x) for x in p] + [int(x) for x in q], op))
         # arithmetic operators on packs (signed packs small enough not to overflow: that would be UB in a constant expression)
         small = min(11, (1 << (b // 2 - 1)) - 1)
-        for _ in range(max(2, nrand)):
+        for _ in range(max(1, nrand // 2)):
             if signed:
                 p = [rnd.randint(-small, small) for _ in range(n)]
                 q = [rnd.choice([-1, 1]) * rnd.randint(1, small) for _ in range(n)]
             else:
-                p = [rnd.choice([rnd.randint(0, hi), hi, 0, 1]) for _ in range(n)]
-                q = [rnd.choice([rnd.randint(1, hi), hi, 1, 2]) for _ in range(n)]
+                uh = 255 if b == 16 else hi  # uint16 operands are promoted to int: keep products representable (overflow would be UB in a constant expression)
+                p = [rnd.choice([rnd.randint(0, uh), uh, 0, 1]) for _ in range(n)]
+                q = [rnd.choice([rnd.randint(1, uh), uh, 1, 2]) for _ in range(n)]
             for op in ("+", "-", "*", "/", "%", "&", "|", "^", "neg", "not"):
                 if signed and op in ("neg",) and lo in p:
                     continue
